@@ -263,11 +263,15 @@ func Result(sp *spec.Spec, m *spec.Method, r *vc.Rand, mode int) any {
 	}
 	// tagged responses: sometimes select the tagged alternative
 	if m.HTTP != nil {
+		var tagged []*spec.HTTPResponse
 		for _, tr := range m.HTTP.Responses {
-			if tr.TagAttr != "" && r.Chance(1, 2) {
-				o[tr.TagAttr] = vtree.S(tr.TagValue)
-				break
+			if tr.TagAttr != "" {
+				tagged = append(tagged, tr)
 			}
+		}
+		if len(tagged) > 0 && r.Chance(2, 3) {
+			tr := tagged[r.Intn(len(tagged))]
+			o[tr.TagAttr] = vtree.S(tr.TagValue)
 		}
 	}
 	return o
